@@ -1,0 +1,68 @@
+//go:build verif
+
+// Machine-checked contracts for package connstate (comment-only; read by /verif/govc).
+// Property C16. View of State: the partial function (torrent, peer) -> (status, conn) given by
+// the nested map s.conns; a missing entry reads as (_uninit, nil).
+
+package connstate
+
+//@ specfunc cstatus(s *State, h core.InfoHash, p core.PeerID) status = s.conns[h][p].status
+//@ specfunc cconn(s *State, h core.InfoHash, p core.PeerID) *conn.Conn = s.conns[h][p].conn
+//@ specfunc cshape(s *State) bool = s != nil && s.conns != nil && s.config.MaxOpenConnectionsPerTorrent >= 1
+//@ specfunc cinner(s *State) bool = forall h core.InfoHash :: h in s.conns ==> s.conns[h] != nil && allocated(s.conns[h]) && len(s.conns[h]) >= 1 && len(s.conns[h]) <= s.config.MaxOpenConnectionsPerTorrent
+//@ specfunc cstates(s *State) bool = forall h core.InfoHash, p core.PeerID :: h in s.conns && p in s.conns[h] ==> (s.conns[h][p].status == _pending || s.conns[h][p].status == _active) && (s.conns[h][p].status == _active ==> s.conns[h][p].conn != nil)
+//@ specfunc cdistinct(s *State) bool = forall h1 core.InfoHash, h2 core.InfoHash :: h1 in s.conns && h2 in s.conns && h1 != h2 ==> s.conns[h1] != s.conns[h2]
+//@ specfunc cinv(s *State) bool = cshape(s) && cinner(s) && cstates(s) && cdistinct(s)
+//@ specfunc csame(s *State, h core.InfoHash, p core.PeerID) bool = cstatus(s, h, p) == old(cstatus(s, h, p)) && cconn(s, h, p) == old(cconn(s, h, p))
+
+//@ func State.AddPending
+//@   requires cinv(s)
+//@   modifies *
+//@   ensures inv_inner: cshape(s) && cinner(s)
+//@   ensures inv_states: cstates(s)
+//@   ensures inv_distinct: cdistinct(s)
+//@   ensures capacity: result == nil ==> old(len(s.conns[h])) < s.config.MaxOpenConnectionsPerTorrent
+//@   ensures was_uninit: result == nil ==> old(cstatus(s, h, peerID)) == _uninit
+//@   ensures now_pending: result == nil ==> cstatus(s, h, peerID) == _pending
+//@   ensures refused_pending: old(len(s.conns[h])) != s.config.MaxOpenConnectionsPerTorrent && old(cstatus(s, h, peerID)) == _pending ==> result == ErrConnAlreadyPending
+//@   ensures refused_active: old(len(s.conns[h])) != s.config.MaxOpenConnectionsPerTorrent && old(cstatus(s, h, peerID)) == _active ==> result == ErrConnAlreadyActive
+//@   ensures refused_full: old(len(s.conns[h])) == s.config.MaxOpenConnectionsPerTorrent ==> result == ErrTorrentAtCapacity
+//@   ensures unchanged_on_error: result != nil ==> (forall h2 core.InfoHash, p2 core.PeerID :: csame(s, h2, p2))
+//@   ensures others: forall h2 core.InfoHash, p2 core.PeerID :: h2 != h || p2 != peerID ==> csame(s, h2, p2)
+
+//@ func State.DeletePending
+//@   requires cinv(s)
+//@   modifies *
+//@   ensures inv_inner: cshape(s) && cinner(s)
+//@   ensures inv_states: cstates(s)
+//@   ensures inv_distinct: cdistinct(s)
+//@   ensures deleted: old(cstatus(s, h, peerID)) == _pending ==> cstatus(s, h, peerID) == _uninit
+//@   ensures kept: old(cstatus(s, h, peerID)) != _pending ==> csame(s, h, peerID)
+//@   ensures others: forall h2 core.InfoHash, p2 core.PeerID :: h2 != h || p2 != peerID ==> csame(s, h2, p2)
+
+//@ func State.MovePendingToActive
+//@   requires cinv(s) && c != nil
+//@   modifies *
+//@   ensures inv_inner: cshape(s) && cinner(s)
+//@   ensures inv_states: cstates(s)
+//@   ensures inv_distinct: cdistinct(s)
+//@   ensures from_pending: result == nil ==> old(cstatus(s, c.infoHash, c.peerID)) == _pending
+//@   ensures now_active: result == nil ==> cstatus(s, c.infoHash, c.peerID) == _active && cconn(s, c.infoHash, c.peerID) == c
+//@   ensures refused: old(cstatus(s, c.infoHash, c.peerID)) != _pending ==> result != nil
+//@   ensures unchanged_on_error: result != nil ==> (forall h2 core.InfoHash, p2 core.PeerID :: csame(s, h2, p2))
+//@   ensures others: forall h2 core.InfoHash, p2 core.PeerID :: h2 != c.infoHash || p2 != c.peerID ==> csame(s, h2, p2)
+
+//@ func State.DeleteActive
+//@   requires cinv(s) && c != nil
+//@   modifies *
+//@   ensures inv_inner: cshape(s) && cinner(s)
+//@   ensures inv_states: cstates(s)
+//@   ensures inv_distinct: cdistinct(s)
+//@   ensures deleted: old(cstatus(s, c.infoHash, c.peerID)) == _active && old(cconn(s, c.infoHash, c.peerID)) == c ==> cstatus(s, c.infoHash, c.peerID) == _uninit
+//@   ensures not_for_other_conn: !(old(cstatus(s, c.infoHash, c.peerID)) == _active && old(cconn(s, c.infoHash, c.peerID)) == c) ==> csame(s, c.infoHash, c.peerID)
+//@   ensures others: forall h2 core.InfoHash, p2 core.PeerID :: h2 != c.infoHash || p2 != c.peerID ==> csame(s, h2, p2)
+
+//@ func State.numMutualConns
+//@   requires cinv(s)
+//@   ensures bounds: 0 <= result && result <= len(neighbors)
+//@   loop 0 invariant count: 0 <= n && n <= rangeindex + 1 && rangeindex + 1 <= len(neighbors)
